@@ -69,3 +69,34 @@ func Hex(b []byte) string {
 	}
 	return hex.EncodeToString(b)
 }
+
+// Held remembers byte slices that an API handed out - the very memory, plus a private copy of what it
+// held at the time. A result belongs to the caller: nothing the library does LATER may change it
+// (a result that aliases an internal scratch buffer or a pooled block passes every check made when
+// it is returned). Only the most recent 32 results are kept.
+type Held struct {
+	live, copy [][]byte
+	names      []string
+}
+
+func (h *Held) Keep(name string, b []byte) {
+	if len(b) == 0 {
+		return
+	}
+	if len(h.live) == 32 {
+		h.live, h.copy, h.names = h.live[1:], h.copy[1:], h.names[1:]
+	}
+	h.live = append(h.live, b)
+	h.copy = append(h.copy, append([]byte{}, b...))
+	h.names = append(h.names, name)
+}
+
+// Changed names the first remembered result whose memory no longer holds what it held ("" if none).
+func (h *Held) Changed() string {
+	for i := range h.live {
+		if string(h.live[i]) != string(h.copy[i]) {
+			return h.names[i]
+		}
+	}
+	return ""
+}
